@@ -3,6 +3,7 @@ import RsModel.Lemmas.EraseContent
 import RsModel.Lemmas.ReplayNames
 import RsModel.Lemmas.MappedNE
 import RsModel.Lemmas.ReplaceOrig
+import RsModel.Lemmas.LeavesAttr
 /-!
 # Warm caches inside a tree (C10): the second call attributes like the first
 
@@ -416,5 +417,34 @@ theorem Src.second_stream_NA (s : Src) (σ : Store) (hn : s.ids.Nodup) (hc : Col
   have hfill := Src.stream_fills s ⟨true, false⟩ σ hk hn hc
   rw [Src.stream_warm s ⟨true, false⟩ _ hfill, Src.stream_strip s ⟨true, false⟩ σ hn hc]
   exact (Src.warm_NA s h hk).1
+
+
+/-! ## regrouping at name level: only the sequence of leaves matters, whatever the leaves are -/
+
+mutual
+theorem Src.NA_leaves : ∀ (s : Src), s.NoCached → s.IdxHyp →
+    NA (s.stream ⟨true, false⟩ []).1.evs = (s.leaves.map fun x => NA (x.stream ⟨true, false⟩ []).1.evs).flatten
+  | .raw .., _, _ | .rawStr .., _, _ | .rawBuf .., _, _ | .orig .., _, _ | .sms .., _, _ | .replace .., _, _ | .cached .., _, _ => by
+    simp [Src.leaves]
+  | .concat .nil, _, _ => by simp [Src.leaves, SrcList.leavesL, Src.stream, concatStream, concatGo, NA, attrN]
+  | .concat (.cons s rest), hn, hi => by
+    simp only [Src.NoCached] at hn
+    simp only [Src.IdxHyp] at hi
+    rw [concat_NA_nc s rest hn hi]
+    simp only [Src.leaves]
+    exact SrcList.NA_leavesL (.cons s rest) hn hi
+theorem SrcList.NA_leavesL : ∀ (l : SrcList), l.NoCachedL → l.IdxHyps →
+    (l.toList.map fun x => NA (x.stream ⟨true, false⟩ []).1.evs).flatten = (l.leavesL.map fun x => NA (x.stream ⟨true, false⟩ []).1.evs).flatten
+  | .nil, _, _ => rfl
+  | .cons s r, hn, hi => by
+    simp only [SrcList.toList, List.map_cons, List.flatten_cons, SrcList.leavesL, List.map_append, List.flatten_append]
+    rw [Src.NA_leaves s hn.1 hi.1, SrcList.NA_leavesL r hn.2 hi.2]
+end
+
+/-- **two trees with the same sequence of leaves attribute every byte alike at name level** — any leaves (SourceMapSource with
+any map whose indices lie in its tables, ReplaceSource nodes, …), any regrouping by ConcatSource, no assumption on contents -/
+theorem NA_same_leaves (a b : Src) (ha : a.NoCached) (hb : b.NoCached) (ia : a.IdxHyp) (ib : b.IdxHyp) (h : a.leaves = b.leaves) :
+    NA (a.stream ⟨true, false⟩ []).1.evs = NA (b.stream ⟨true, false⟩ []).1.evs := by
+  rw [Src.NA_leaves a ha ia, Src.NA_leaves b hb ib, h]
 
 end Rs
